@@ -64,6 +64,27 @@ MISC = [
 ]
 
 
+def _q(s):
+    return '"' + s.replace("\\", "\\\\").replace('"', '\\"') + '"'
+
+
+# relation literals read from text: JSON values of every kind (integers at the edges of i64 / u64, floats,
+# exponents, booleans, nulls, strings with escapes, nested values), both JSON layouts, CSV edge cases
+JSON_VALUES = ["0", "-1", "9223372036854775807", "-9223372036854775808", "9223372036854775808", "18446744073709551615", "18446744073709551616",
+               "1.5", "-0.0", "1e3", "1E-7", "1e308", "1e400", "true", "false", "null", '"x"', '""', '"a\\"b"', '"\\u00e9"', "[1, 2]", '{"z": 1}']
+FROM_TEXT = []
+for _v in JSON_VALUES:
+    FROM_TEXT.append("from_text format:json " + _q('[{"id": 1, "v": %s}]' % _v))
+    FROM_TEXT.append("from_text format:json " + _q('{"columns": ["id", "v"], "data": [[1, %s]]}' % _v) + " | select {v}")
+FROM_TEXT += [
+    "from_text format:json " + _q("[]"), "from_text format:json " + _q("[{}]"), "from_text format:json " + _q('[{"a": 1}, {"b": 2}]'),
+    "from_text format:json " + _q('{"columns": [], "data": []}'), "from_text format:json " + _q('{"columns": ["a"], "data": [[1], [2, 3]]}'),
+    "from_text format:csv " + _q("a,b\n1,2\n"), "from_text format:csv " + _q("a,b\n"), "from_text format:csv " + _q(""), "from_text format:csv " + _q("a\n\n1\n"),
+    "from_text format:csv " + _q("a,b\n1\n"), "from_text format:csv " + _q("a,a\n1,2\n"), "from_text format:csv " + _q("a,b\n\"x,y\",2\n"),
+    "from_text " + _q("a,b\n9223372036854775808,1e400\n"), "from_text format:csv " + _q("é,b\n1,2\n") + " | select {b}",
+]
+
+
 def programs():
     """-> list of (tag, source)"""
     out = []
@@ -92,4 +113,6 @@ def programs():
         out.append(("frame_group", "from t1 | group k (window %s (sort id | derive {x = count this}))" % f))
     for m in MISC:
         out.append(("misc", m))
+    for m in FROM_TEXT:
+        out.append(("from_text", m))
     return out
